@@ -576,6 +576,19 @@ def cases(draw):
             continue
         used.add(b['ident'])
         blocks.append(b)
+    if draw(st.integers(0, 4)) == 0:
+        # two functions of one group ask to be renamed to the SAME third one: the first claim stands, the second is
+        # refused with a warning, and shadows / shadowed-by must still point at each other
+        grps = [g for g in W['groups'].values() if len([s for s in g if s not in used]) >= 2 and len(g) >= 3]
+        if grps:
+            g = grps[draw(st.integers(0, len(grps) - 1))]
+            free = [s for s in g if s not in used]
+            a, b2 = free[0], free[1]
+            tgt = [s for s in g if s not in (a, b2)][draw(st.integers(0, len(g) - 3))]
+            for s_ in (a, b2):
+                blocks.append({'ident': s_, 'origin': 'real', 'of': s_, 'anns': [['rename-to', tgt]], 'desc': None, 'since': None,
+                               'deprecated': None, 'stability': None})
+                used.add(s_)
     order = draw(st.permutations(list(range(len(blocks)))))
     return {'flags': flags, 'blocks': [blocks[i] for i in order]}
 
